@@ -598,6 +598,14 @@ def f_cyc():
     ("a2", "comb", [("=", ref("P2"), ref("o2")), ("=", ref("out"), ("bin", "^", ref("R2"), ref("o2")))]),
     ("b2", "comb", [("=", ref("R2"), ("bin", "+", ref("P2"), c(2, 3)))])]), "false"
 
+  # loops inside ONE block: a block that reads the signal it writes
+  i2 = ref("in_", ("s", 0, 2))
+  yield "cyc:self-diverge", comp("CycSD", ins + [("X", "wire", B(2), ())], blocks=[
+    ("blkA", "comb", [("=", ref("X"), ("bin", "+", ref("X"), ("bin", "|", i2, c(2, 1)))), ("=", ref("out"), ref("X"))])]), "diverge"
+  yield "cyc:self-false-slices", comp("CycSF", ins + [("X", "wire", B(4), ())], blocks=[
+    ("blkA", "comb", [("=", ref("X", ("s", 2, 4)), ref("X", ("s", 1, 3))), ("=", ref("out"), ref("X", ("s", 2, 4)))]),
+    ("blkF", "comb", [("=", ref("X", ("s", 0, 2)), i2)])]), "false"
+
 
 def _cyc_fill(label, sg):
   """Blocks driving the bits of the carriers that the loop does not drive (single-driver discipline)."""
